@@ -353,3 +353,56 @@ Proof.
   - repeat constructor; cbn; intros H; repeat (destruct H as [H | H]; [discriminate H|]); exact H.
   - eapply Permutation_trans; [|apply Permutation_app_comm with (l := [_; _]) (l' := [_; _])]. apply Permutation_refl.
 Qed.
+
+(* ---- 3'. THE WHOLE OBJECT.  A recursive-descent parser for the JSON the events are made of (strings, null, arrays,
+   objects; Model/JsonEnc.v [parse_value]) — it uses fuel, and for EVERY text the out-of-fuel value is never returned: *)
+From AM Require Import Proofs.JsonParseLemmas.
+Theorem C10_json_parse_never_out_of_fuel : forall s : str, parse s <> PFuel.
+Proof. exact parse_never_out_of_fuel. Qed.
+Print Assumptions C10_json_parse_never_out_of_fuel.
+
+(* applied to the text of ANY value followed by ANY text, with fuel at least the length of the value's text, the
+   parser returns the value as a reader sees it ([norm]: every string and key sanitised) and the text that follows:
+   values end exactly where the encoder ended them, at every nesting depth *)
+Theorem C10_json_parse_value : forall (v : jval) (fuel : nat) (rest : str),
+  readable v = true -> (List.length (enc_value v) <= fuel)%nat -> parse_value fuel (enc_value v ++ rest) = POk (norm v) rest.
+Proof. intros v fuel rest H. exact (parse_value_enc v H fuel rest). Qed.
+Print Assumptions C10_json_parse_value.
+
+(* the line of an event parses to exactly the event: the members of the struct in their fixed order —
+   metadata{auditId[,extra]}, type, loggedAt, source{type,value[,extra]}, outcome, subjects, component[,target][,data] —
+   each holding the event's field ([reader_view], strings sanitised, maps key-sorted); no field content can add,
+   remove, reorder or rename a member *)
+Theorem C10_json_parse_event : forall e : jevent,
+  event_readable e = true -> parse (enc_event e) = POk (reader_view e) [].
+Proof. exact parse_enc_event_view. Qed.
+Print Assumptions C10_json_parse_event.
+
+Theorem C10_json_login_view_readable : forall (aid t : str) (e : Model.SshdProc.event),
+  time_text_ok t = true -> event_readable (login_view aid t e) = true.
+Proof. exact login_view_readable. Qed.
+Print Assumptions C10_json_login_view_readable.
+
+Theorem C10_json_action_view_readable : forall (t : str) (a : Model.ToEvent.uaction),
+  time_text_ok t = true -> event_readable (action_view t a) = true.
+Proof. exact action_view_readable. Qed.
+Print Assumptions C10_json_action_view_readable.
+
+(* the hostile login above, read back: the name is ONE string under subjects.loggedAs, byte for byte what it was *)
+Example C10_json_parse_example :
+  let e := login_view (s2l "id-1") (s2l "2023-04-05T06:07:08.123456789Z") C10_json_hostile_login in
+  event_readable e = true /\
+  parse (enc_event e) =
+    POk (JObj [ (s2l "metadata", JObj [(s2l "auditId", JStr (s2l "id-1"))]);
+                (s2l "type", JStr (s2l "UserLogin"));
+                (s2l "loggedAt", JStr (s2l "2023-04-05T06:07:08.123456789Z"));
+                (s2l "source", JObj [(s2l "type", JStr (s2l "IP")); (s2l "value", JStr (s2l "10.0.0.9"));
+                                     (s2l "extra", JObj [(s2l "port", JStr (s2l "22"))])]);
+                (s2l "outcome", JStr (s2l "failed"));
+                (s2l "subjects", JObj [(s2l "loggedAs", JStr (hx "78227d0a7b226d65746164617461223a7b7d7d"));
+                                       (s2l "pid", JStr (s2l "4242")); (s2l "userID", JStr (s2l "unknown"))]);
+                (s2l "component", JStr (s2l "sshd"));
+                (s2l "target", JObj [(s2l "host", JStr (s2l "node-7")); (s2l "machine-id", JStr (s2l "mid-0123"))]) ]) [] /\
+  (* a truncated line is not an event *)
+  parse (firstn 60 (enc_event e)) = PErr.
+Proof. vm_compute. repeat split; reflexivity. Qed.
